@@ -158,17 +158,17 @@ func init() {
 	}
 	props["C12"] = func() Prop {
 		return &rtProp{id: "C12", gen: rtGen{alertsOnly: false}, nQuick: 10000, nThor: 400000, oracle: oracleC12,
-			rule: "alerts with 0-4 selectors each over every presence combination of agency / route / route type (known and unknown) / direction / stop / trip descriptor (a known trip of the message, a route-only descriptor with or without direction, start time, start date, empty trip id), several routes and both directions per alert, explicit route selectors colliding with descriptor routes; the fixed cases enumerate all 2^10 presence patterns of a single selector; distinct = distinct input JSON; non-trivial = an alert with at least one selector",
+			rule:  "alerts with 0-4 selectors each over every presence combination of agency / route / route type (known and unknown) / direction / stop / trip descriptor (a known trip of the message, a route-only descriptor with or without direction, start time, start date, empty trip id), several routes and both directions per alert, explicit route selectors colliding with descriptor routes; the fixed cases enumerate all 2^10 presence patterns of a single selector; distinct = distinct input JSON; non-trivial = an alert with at least one selector",
 			fixed: fixedC12}
 	}
 	props["C16"] = func() Prop {
 		return &rtProp{id: "C16", gen: rtGen{conflictFree: true, nyctTrips: true, zones: []string{"nil", "UTC", "America/New_York"}}, nQuick: 8000, nThor: 200000, oracle: oracleC16,
-			rule: "conflict-free messages mixing NYCT-extended and plain entities: NYCT trip descriptors with every presence combination of train id / is_assigned / direction (NORTH, EAST, SOUTH, WEST), NYCT-format ids (one and two character routes, multi-byte characters in the wildcard positions) and plain ids, stop time updates with scheduled/actual track presence patterns and stop ids at the M-train stations (N, S and other suffixes), first-stop times around the feed timestamp; all four option combinations; the thorough tier additionally runs every origin time 000000-599999; distinct = distinct input JSON; non-trivial = at least one entity",
+			rule:  "conflict-free messages mixing NYCT-extended and plain entities: NYCT trip descriptors with every presence combination of train id / is_assigned / direction (NORTH, EAST, SOUTH, WEST), NYCT-format ids (one and two character routes, multi-byte characters in the wildcard positions) and plain ids, stop time updates with scheduled/actual track presence patterns and stop ids at the M-train stations (N, S and other suffixes), first-stop times around the feed timestamp; all four option combinations; the thorough tier additionally runs every origin time 000000-599999; distinct = distinct input JSON; non-trivial = at least one entity",
 			fixed: fixedC16}
 	}
 	props["C17"] = func() Prop {
 		return &rtProp{id: "C17", gen: rtGen{nyctAlerts: true, alertsOnly: true}, nQuick: 8000, nThor: 200000, oracle: oracleC17,
-			rule: "alert feeds of 1-6 alerts: elevator ids (platform N/S, station only, shared elevators across stations, ids with a prefix before the station, malformed near-misses), lmm:planned_work / lmm:alert / other prefixes, Mercury sort orders with every priority 1-40 and out-of-table, signed and malformed values, MercuryAlert extension present or not; 3 deduplication policies x station-id flag x skip flag x metadata flag; distinct = distinct input JSON; non-trivial = at least one output alert",
+			rule:  "alert feeds of 1-6 alerts: elevator ids (platform N/S, station only, shared elevators across stations, ids with a prefix before the station, malformed near-misses), lmm:planned_work / lmm:alert / other prefixes, Mercury sort orders with every priority 1-40 and out-of-table, signed and malformed values, MercuryAlert extension present or not; 3 deduplication policies x station-id flag x skip flag x metadata flag; distinct = distinct input JSON; non-trivial = at least one output alert",
 			fixed: fixedC17}
 	}
 	props["C07"] = func() Prop {
@@ -182,12 +182,12 @@ type c07Prop struct{ cf, any rtProp }
 
 func (p *c07Prop) init() {
 	if p.cf.oracle == nil {
-		p.cf = rtProp{id: "C07", gen: rtGen{conflictFree: true}, oracle: oracleC07, orders: 5}
-		p.any = rtProp{id: "C07", gen: rtGen{}, oracle: oracleC07}
+		p.cf = rtProp{id: "C07", gen: rtGen{conflictFree: true, nearDup: true}, oracle: oracleC07, orders: 5}
+		p.any = rtProp{id: "C07", gen: rtGen{nearDup: true}, oracle: oracleC07}
 	}
 }
 func (p *c07Prop) Rule() string {
-	return "two streams: (a) conflict-free messages (as C02) parsed in their own order, reversed and in 4 random entity orders - trips, links and vehicles (as a multiset) must not change, alerts keep feed order, own entities win; (b) arbitrary messages with conflicting duplicates (several own entities per trip/vehicle, empty vehicle descriptors, changing associations) - Trips strictly sorted by identifier and free of duplicates, Vehicles free of duplicate ids; distinct = distinct input JSON; non-trivial = at least 2 entities"
+	return "two streams: (a) conflict-free messages (as C02) parsed in their own order, reversed and in 4 random entity orders - trips, links and vehicles (as a multiset) must not change, alerts keep feed order, own entities win; (b) arbitrary messages with conflicting duplicates (several own entities per trip/vehicle, empty vehicle descriptors, changing associations) - Trips strictly sorted by identifier and free of duplicates, Vehicles free of duplicate ids; in both streams one case in three has two trips whose identifiers differ in exactly one field (absent vs 00:00:00, absent vs a date, unspecified vs a direction, ...); distinct = distinct input JSON; non-trivial = at least 2 entities"
 }
 func (p *c07Prop) N(tier string) int {
 	if tier == "thorough" {
